@@ -496,7 +496,8 @@ pub fn outline_entry(
     for (p, n) in &defined_now {
         preds.push((p.as_str(), *n));
     }
-    // lemmas may also mention not-yet-defined fresh predicates (observation F12)
+    // lemmas may also mention not-yet-defined fresh predicates: a later definition of such a predicate must be
+    // refused (TakenPredicate; finding F12, repaired) and a later definition body may mention it
     let mut lemma_preds = preds.clone();
     if rng.chance(25) {
         lemma_preds.extend(fresh.iter().cloned());
